@@ -55,6 +55,28 @@ func startServer() {
 	if err != nil {
 		panic(err)
 	}
+	// a command registered through the public extension API whose key function is less careful than its handler: a bare
+	// VERIFLEN makes it index past the end of the command.  Whatever a registered command does, the connection gets one
+	// reply (an error) and the process stays up.
+	if err := db.AddCommand(sugardb.CommandOptions{
+		Command:     "VERIFLEN",
+		Module:      "verif",
+		Categories:  []string{"read", "fast"},
+		Description: "(VERIFLEN key) length of the string stored at key",
+		Sync:        false,
+		KeyExtractionFunc: func(cmd []string) (sugardb.CommandKeyExtractionFuncResult, error) {
+			return sugardb.CommandKeyExtractionFuncResult{ReadKeys: []string{cmd[1]}}, nil
+		},
+		HandlerFunc: func(params sugardb.CommandHandlerFuncParams) ([]byte, error) {
+			if len(params.Command) != 2 {
+				return nil, fmt.Errorf("wrong number of arguments")
+			}
+			v, _ := params.GetValues(params.Context, []string{params.Command[1]})[params.Command[1]].(string)
+			return []byte(fmt.Sprintf(":%d\r\n", len(v))), nil
+		},
+	}); err != nil {
+		panic(err)
+	}
 	go db.Start()
 	addr = fmt.Sprintf("127.0.0.1:%d", port)
 	for i := 0; i < 200; i++ {
